@@ -146,7 +146,15 @@ def script(rng, tx0, rx0, nq, word):
             new_send()
         rxn = rx0  # frame number the NCP would use next towards the host
 
+        def other(f):
+            """an acknowledgement number that is neither the outstanding frame's nor its successor's (a stale or
+            replayed frame): it covers nothing the host has outstanding"""
+            k = (f + rng.randint(2, 7)) % 8
+            return rng.choice([f"A:0:0:{k}", f"A:0:0:{k}", f"N:0:0:{k}", f"D:{r.p._rx_seq}:0:{k}:{rng.getrandbits(16):04x}"])
+
         def frame_for(c, f):
+            if c == "o":
+                return other(f)
             return {"a": f"A:0:0:{(f + 1) % 8}", "s": f"A:0:0:{f}", "n": f"N:0:0:{f}", "e": f"E:2:{rng.choice([2, 81])}",
                     "k": "K:2:11", "d": f"D:{r.p._rx_seq}:0:{(f + 1) % 8}:{rng.getrandbits(16):04x}"}[c]
 
@@ -162,7 +170,7 @@ def script(rng, tx0, rx0, nq, word):
                 r.do(f"B={frame_for(c1, f)}={frame_for(c2, f)}")
                 continue
             frm = r.outstanding()
-            if frm is None and ch in "asntrdc":
+            if frm is None and ch in "asntrdco":
                 new_send()
                 frm = r.outstanding()
             f = 0 if frm is None else frm
@@ -172,6 +180,8 @@ def script(rng, tx0, rx0, nq, word):
                 r.do(f"F=A:0:0:{f}")
             elif ch == "n":
                 r.do(f"F=N:0:0:{f}")
+            elif ch == "o":
+                r.do("F=" + other(f))
             elif ch == "t":
                 if r.loop.next_timer() is None:
                     new_send()
@@ -219,8 +229,11 @@ def oracle(r, consts):
     pay_of = {}
     prev_outstanding = None
     told = 0
+    started, finished = set(), set()
+    was_failed = False
     for ev, entries, st in r.events:
         now = int(st.split("now=")[1].split()[0]) / 1e6
+        is_failed = "failed=1" in st
         out_now = st.split("out=")[1]
         if "," in out_now:
             return f"more than one unacknowledged DATA frame outstanding ({out_now}) after event {ev}"
@@ -310,6 +323,31 @@ def oracle(r, consts):
                     cov = any(x[0] in "AND" and int(x.split(":")[3]) == (s["frm"] + 1) % 8 for x in fs_)
                     if not cov:
                         return f"send {ph} (frame {s['frm']}) reported success on event {ev}, which does not acknowledge it"
+        # ---- the failure clause: told once with the reason, waiting sends fail
+        if kind == "S":
+            started.add(int(ev.split("=")[1]))
+        for e in entries:
+            if e[0] == "D":
+                finished.add(int(e[1:].split(":")[0]))
+        err_codes = [int(x.split(":")[2]) for x in fs_ if x[0] == "E"]
+        reports = [int(e[1:]) for e in entries if e[0] == "R"]
+        for x in fs_:
+            if x[0] == "K" and 11 in reports:
+                reports.remove(11)
+        if not was_failed and (err_codes or is_failed):
+            if err_codes and not is_failed and not any(x[0] == "K" for x in fs_):
+                return f"an ERROR frame arrived (event {ev}) and the link is not in the failed state"
+            # one report per failure cause in this event: each ERROR frame, and an exhausted budget if a timer fired
+            hi = max(1, len(err_codes) + (1 if timeout_here else 0))
+            lo = 1 if timeout_here else max(1, len(err_codes))
+            if not (lo <= len(reports) <= hi):
+                return f"the link failed on event {ev} and the upper layer was told {len(reports)} times"
+            if err_codes and kind != "B" and reports[0] != err_codes[0]:
+                return f"ERROR frame with code {err_codes[0]} was reported to the upper layer as {reports[0]}"
+            waiting = sorted(started - finished)
+            if waiting and is_failed:
+                return f"the link failed on event {ev} and sends {waiting} were still waiting afterwards"
+        was_failed = is_failed
     return None
 
 
@@ -321,7 +359,12 @@ def cases(ctx):
     for n in range(1, L + 1):
         for w in itertools.product(core, repeat=n):
             out.append((0, 0, 0, "".join(w)))
-    pairs = ["b" + x + y for x in "asnekd" for y in "asnekd"]
+    for n in range(1, 4):  # stale / replayed acknowledgement numbers among the other reactions
+        for w in itertools.product(core + "o", repeat=n):
+            if "o" in w:
+                out.append((rng.randrange(8), rng.randrange(8), 0, "".join(w)))
+                out.append((rng.randrange(8), rng.randrange(8), 1, "".join(w) + "a"))
+    pairs = ["b" + x + y for x in "asnekdo" for y in "asnekdo"]
     toks = list(core) + pairs
     for n in range(1, 3):
         for w in itertools.product(toks, repeat=n):
@@ -329,7 +372,7 @@ def cases(ctx):
                 out.append((0, 0, 0, "".join(w)))
                 out.append((0, 0, 1, "".join(w) + "tat"))
     for _ in range(ctx.n(1500, 20000)):
-        w = "".join(rng.choice(["a", "a", "a", "s", "n", "n", "t", "t", "e", "k", "r", "d", "d", "w", "w", "c", rng.choice(pairs)]) for _ in range(rng.randint(3, 14)))
+        w = "".join(rng.choice(["a", "a", "a", "s", "n", "n", "t", "t", "e", "k", "r", "d", "d", "w", "w", "c", "o", "o", rng.choice(pairs)]) for _ in range(rng.randint(3, 14)))
         out.append((rng.randrange(8), rng.randrange(8), rng.randint(0, 2), w))
     for _ in range(ctx.n(20, 200)):  # long: frame numbers wrap
         w = "".join(rng.choice("aaaaaadwn") for _ in range(60))
@@ -387,7 +430,7 @@ def run(ctx):
         if i % 2500 == 17:
             ctx.sample({"tx": tx0, "rx": rx0, "queued": nq, "word": w, "events": [ev for ev, _, _ in r.events][:10], "impl": [[en, st] for _, en, st in r.events][:5]})
     ctx.cov["distinct_nontrivial"] = nontriv
-    ctx.cov["rule"] = (f"every reaction word of length 1..{ctx.n(4, 6)} over {{covering ACK, stale ACK, NAK, ACK timeout, ERROR, RSTACK, ACK/NAK racing the timeout in one loop iteration}} for a single send (exhaustive), "
+    ctx.cov["rule"] = (f"every reaction word of length 1..{ctx.n(4, 6)} over {{covering ACK, stale ACK, ACK/NAK/DATA with an acknowledgement number covering nothing outstanding (length 1..3), NAK, ACK timeout, ERROR, RSTACK, ACK/NAK racing the timeout in one loop iteration}} for a single send (exhaustive), "
                        "random words of length 3..14 adding piggy-backed acks on DATA, clock advances, caller cancellation, 0..2 queued sends and all 64 start counters; 60-reaction runs wrapping the frame number; "
                        "non-trivial = the run contains at least one retransmission")
     ctx.exhaustive = True
